@@ -8,6 +8,7 @@ package c11
 
 import (
 	"context"
+	"crypto/tls"
 	"encoding/binary"
 	"fmt"
 	"os"
@@ -24,10 +25,11 @@ import (
 
 	"verif/harness/peer"
 	"verif/harness/stat"
+	"verif/harness/tlsenv"
 )
 
 var st = stat.New("C11",
-	"Case = one proxy (with or without a registered push callback) + a scripted server that answers every request; 1..4 rounds, round = {warm-up call on the live connection, server-side close of kind {right after a response | while idle | reconnect notification (id 0, _reconnect_) then close after 20 ms | reconnect notification, after which the server stops serving that connection and closes it only 1.5 s later | abortive close (RST) | close in the middle of a packet (2 or 9 bytes of a frame written) | an ordinary server push followed 100 ms later by an idle close (the push callback may take 0 / 300 / 1200 ms) | listener restart | listener restart with 1..8 calls issued while the server is down (after enough successful calls to keep the failures a minority in the health counters)}; a third of the cases use a client send queue of 4 requests (clientqueuelen), wait until the client has observed the close (at most 200 ms), generated gap from {0,1,10,100,300,500,700,900,1100,2500} ms, then 1..3 concurrent calls with a 1200 ms timeout; optionally a 1150 ms settle period}. Oracle: every call issued after the observed close succeeds (a call that fails or takes >= 1000 ms is a violation; 400..1000 ms is re-run twice before it counts); the server log shows each call's request exactly once and within 400 ms of the call; at most one new connection is opened per close; after the settle period the healthy new connection is not regarded as closed and no further connection was opened. Non-trivial = a call issued < 1 s after an observed close, preceded by >= 1 successful call on the closed connection. Distinct = distinct case JSON.",
+	"Case = one proxy (with or without a registered push callback) + a scripted server that answers every request, over a tcp endpoint or (a quarter of the cases) an ssl endpoint with the client's TLS configuration taken from /tars/application/client<ca>; 1..4 rounds, round = {warm-up call on the live connection, server-side close of kind {right after a response | while idle | reconnect notification (id 0, _reconnect_) then close after 20 ms | reconnect notification, after which the server stops serving that connection and closes it only 1.5 s later | abortive close (RST) | close in the middle of a packet (2 or 9 bytes of a frame written) | an ordinary server push followed 100 ms later by an idle close (the push callback may take 0 / 300 / 1200 ms) | listener restart | listener restart with 1..8 calls issued while the server is down (after enough successful calls to keep the failures a minority in the health counters)}; a third of the cases use a client send queue of 4 requests (clientqueuelen), wait until the client has observed the close (at most 200 ms), generated gap from {0,1,10,100,300,500,700,900,1100,2500} ms, then 1..3 concurrent calls with a 1200 ms timeout; optionally a 1150 ms settle period}. Oracle: every call issued after the observed close succeeds (a call that fails or takes >= 1000 ms is a violation; 400..1000 ms is re-run twice before it counts); the server log shows each call's request exactly once and within 400 ms of the call; at most one new connection is opened per close; after the settle period the healthy new connection is not regarded as closed and no further connection was opened. Non-trivial = a call issued < 1 s after an observed close, preceded by >= 1 successful call on the closed connection. Distinct = distinct case JSON.",
 	"calls racing with a close the client cannot yet know about (FIN in flight) are excluded by construction: calls are issued only after the transport's closed flag is set",
 	"interleavings of the client's sender/receiver goroutines are sampled through the generated gaps, not enumerated")
 
@@ -52,12 +54,30 @@ type Case struct {
 	SmallQueue bool `json:"small_queue,omitempty"`
 	// SlowPushMs > 0 (with PushCallback): the push callback takes that long to return
 	SlowPushMs int `json:"slow_push_ms,omitempty"`
+	// SSL: the endpoint is an ssl endpoint (TLS on every connection, client configured through
+	// /tars/application/client<ca>)
+	SSL bool `json:"ssl,omitempty"`
+}
+
+var serverTLS *tls.Config
+
+func TestMain(m *testing.M) {
+	cfg, cleanup, err := tlsenv.Setup("c11")
+	if err != nil {
+		fmt.Println("VERIF-INFRA tls setup:", err)
+		os.Exit(2)
+	}
+	serverTLS = cfg
+	code := m.Run()
+	cleanup()
+	os.Exit(code)
 }
 
 func draw(rt *rapid.T) Case {
 	var c Case
 	c.PushCallback = rapid.IntRange(0, 2).Draw(rt, "pushCallback") == 0
 	c.SmallQueue = rapid.IntRange(0, 2).Draw(rt, "smallQueue") == 0
+	c.SSL = rapid.IntRange(0, 3).Draw(rt, "ssl") == 0
 	if c.PushCallback && rapid.Bool().Draw(rt, "slowPush") {
 		c.SlowPushMs = rapid.SampledFrom([]int{300, 1200}).Draw(rt, "slowPushMs")
 	}
@@ -136,7 +156,12 @@ func runOnce(c Case) outcome {
 	if c.SmallQueue {
 		cm = commSmall
 	}
-	srv, err := peer.Listen("127.0.0.1")
+	var tlsCfg *tls.Config
+	transportName := "tcp"
+	if c.SSL {
+		tlsCfg, transportName = serverTLS, "ssl"
+	}
+	srv, err := peer.ListenTLS("127.0.0.1", tlsCfg)
 	if err != nil {
 		return outcome{f: stat.Failf("harness-failure", "listen: %v", err)}
 	}
@@ -154,7 +179,7 @@ func runOnce(c Case) outcome {
 		}
 	}
 	objName := fmt.Sprintf("Verif.C11.Obj%d", atomic.AddInt64(&objSeq, 1))
-	e.sp = tars.NewServantProxy(cm, fmt.Sprintf("%s@tcp -h 127.0.0.1 -p %d -t 60000", objName, srv.Port))
+	e.sp = tars.NewServantProxy(cm, fmt.Sprintf("%s@%s -h 127.0.0.1 -p %d -t 60000", objName, transportName, srv.Port))
 	// adapters outlive their case (keep-alive ticker of push clients, 30 s probes of blocked
 	// endpoints): close them, or they reach a later case's server through a reused port
 	defer func() {
@@ -442,6 +467,11 @@ func TestC11(t *testing.T) {
 			if r.Settle {
 				cls = append(cls, "settle")
 			}
+		}
+		if c.SSL {
+			cls = append(cls, "ssl-endpoint")
+		} else {
+			cls = append(cls, "tcp-endpoint")
 		}
 		st.CaseJSON(c, nt, cls...)
 		st.Class("rounds", int64(len(c.Rounds)))
